@@ -14,6 +14,7 @@ import c01_common as cc
 import npc_gen
 
 PROP = 'C01'
+P_CHAIN = 0.8
 COQ_IMPORTS = ['Base.Prelude', 'Model.Charge', 'Model.Tensor', 'Model.TensorOps', 'Model.TensorCheck', 'Model.TensorDot', 'Model.TensorDotCheck']
 
 
@@ -115,7 +116,12 @@ def main(ctx):
     if not ctx.proof.ok:
         nprog *= 3              # intensified search when an obligation is broken
     corpus = [c['program'] for c in common.corpus_cases(PROP) if 'program' in c]
-    programs = corpus + [npc_gen.make_program(rng, ctx.tier, record_coq=2) for _ in range(nprog)]
+    # every second program over 'rich' legs (several charge blocks, few missing blocks); in all programs the result of an operation that
+    # rebuilds / permutes the block table is, with probability P_CHAIN, immediately combined with a fresh partner tensor (different
+    # block pattern) by add / sub / iadd_prefactor_other / (i)binary_blockwise / inner / tensordot; tensors whose dense form is right
+    # but whose cached flags are wrong stay alive (keep_flagged) so that operations trusting the flag are compared with numpy
+    programs = corpus + [npc_gen.make_program(rng, ctx.tier, record_coq=2, p_chain=P_CHAIN, keep_flagged=True, rich=(i % 2 == 1))
+                         for i in range(nprog)]
     seen = {}
     all_hist = {}
     coq_done = {}
@@ -137,6 +143,24 @@ def main(ctx):
     ctx.cov['traces_validated_against_impl'] = sum(v['cases'] for v in coq_done.values()) + nlab
     ctx.cov['model_vs_impl'] = coq_done
     ctx.cov['input_distribution'] = all_hist
+    # how often the result of a block-table-permuting operation was an operand of a binary operation (per configuration):
+    #  chains = all such steps, order_sensitive = the permuted operand stored >= 2 blocks in non-lexsorted order and the other operand had a
+    #  different block table, directed = chains produced on purpose (partner + binary step), by_permuting_op / by_binary_op = split of `chains`
+    ctx.cov['permute_then_binary'] = {
+        cfg: {'programs': len(programs),
+              'chains': h.get('chain:permute-then-binary', 0),
+              'order_sensitive': h.get('chain:permute-then-binary:order-sensitive', 0),
+              'directed': {k.split(':', 1)[1]: v for k, v in h.items() if k.startswith('chain-directed:')},
+              'by_permuting_op': {k.split(':', 1)[1]: v for k, v in h.items() if k.startswith('chain-perm:')},
+              'by_binary_op': {k.split(':', 1)[1]: v for k, v in h.items() if k.startswith('chain-bin:')},
+              'tensors_kept_alive_with_false_flag': h.get('kept-with-false-flag', 0)}
+        for cfg, h in all_hist.items() if cfg in ('py', 'cy')}
+    for cfg, d in ctx.cov['permute_then_binary'].items():
+        ctx.notes.append('%s: permute-then-binary chains: %d in %d programs (%d order-sensitive); without directed chains the same generator gave '
+                         'about 75 (7 order-sensitive) per 1400 programs' % (cfg, d['chains'], d['programs'], d['order_sensitive']))
+        if d['chains'] < len(programs) // 2 and ctx.tier == 'quick':
+            ctx.fail('correspondence', 'the program generator produced only %d permute-then-binary chains in %d programs (%s)' % (
+                d['chains'], len(programs), cfg), None)
     ctx.assumptions += [
         'C01 oracle: numpy on dense arrays with small integer / Gaussian-integer entries (exact in float64); the documented index map of a LegPipe '
         '(C-order over incoming blocks, stable sort by charge, bunch) is re-implemented in harness/npc_gen.py',
@@ -150,5 +174,7 @@ def main(ctx):
 
 RULE = ('random programs (2-3 initial tensors + 1-6 (quick) / 1-12 (thorough) operations over ~60 public operations; 0-3 charges, mod 1..5, both qconj, unsorted / '
         'duplicated / size-0 charge blocks, LegPipes, rank 1-4 (thorough 1-6), nonzero qtotal, missing and zero blocks, float/complex/int entries; ~10% malformed '
-        'operations expecting an error class).  One case = one program; evaluations counts steps; a program is non-trivial when some step produced a tensor '
+        'operations expecting an error class; every second program over legs with 2-4 charge blocks of >= 2 different charges; with probability 0.8 the '
+        'result of an operation that rebuilds the block table is next combined with a fresh partner tensor by add / sub / iadd_prefactor_other / '
+        '(i)binary_blockwise / inner / tensordot, statistics in coverage.permute_then_binary).  One case = one program; evaluations counts steps; a program is non-trivial when some step produced a tensor '
         'with a non-zero entry; distinct = distinct (seed, operation sequence).  Each program is run in the py and the cy configuration.')
